@@ -110,7 +110,17 @@ def sum_of_2d_modes(modes, weights):
 
     """
     modes = np.asarray(modes)
-    weights = np.asarray(weights).astype(modes.dtype)
+    weights = np.asarray(weights)
+    if modes.dtype.kind in 'fc':
+        # the sum is made at the precision of the modes (double precision
+        # weights do not promote single precision modes); complex weights of
+        # real modes stay complex
+        dtype = modes.dtype
+        if weights.dtype.kind == 'c':
+            dtype = np.result_type(dtype, np.complex64)
+        weights = weights.astype(dtype)
+    # integer or boolean modes (segment masks, index ramps) cannot hold the
+    # weights: the weights are used as they were given
 
     # dot product of the 0th dim of modes and weights => weighted sum
     return np.tensordot(modes, weights, axes=(0, 0))
